@@ -350,13 +350,24 @@ func (s *bSet) expected(path string) string {
 func (s *bSet) source(path string) string {
 	t := s.tmpls[path]
 	hdr := ""
+	// whitespace-only text around the leading clauses is dropped, whatever kind of white space it is
+	// (the rule is strings.TrimSpace: \v, \f, NBSP, NEL, the Unicode separators count)
+	blanks := []string{"", "", "\n", " \t", "\v\n", "\f", "\u00a0", "\u0085\n", "\u2028", " \u3000 "}
+	k := len(path)
+	blank := func() string {
+		if t.ext == "" && len(t.imports) == 0 {
+			return ""
+		}
+		k = k*7 + 3
+		return blanks[k%len(blanks)]
+	}
 	if t.ext != "" {
-		hdr += `{{extends "` + t.ext + `"}}`
+		hdr += blank() + `{{extends "` + t.ext + `"}}`
 	}
 	for _, im := range t.imports {
-		hdr += `{{import "` + im + `"}}`
+		hdr += blank() + `{{import "` + im + `"}}`
 	}
-	return hdr + `{{ cv := "top" }}` + srcElems(t.root)
+	return hdr + blank() + `{{ cv := "top" }}` + srcElems(t.root)
 }
 
 // ---- generation of a set
